@@ -36,6 +36,7 @@ fn reverify<const N: usize>(seed: u64) {
 }
 
 fn unit<const N: usize>(seed: u64) {
+    key_elements_independent::<N>(seed);
     reverify::<N>(seed);
     honest::<N>(seed);
     only_from_verifying_proof::<N>(seed);
@@ -43,6 +44,18 @@ fn unit<const N: usize>(seed: u64) {
 }
 
 /// honest request => Some, and blind_sign + unblind verifies on m for all m, bf, draws
+/// "verifies on no tuple differing in any coordinate" needs the Y_i of a generated key to be independent elements: with
+/// y_i = y_j a signature covers the sum of the two entries.  Checked on the key generator the harnesses below use.
+fn key_elements_independent<const N: usize>(seed: u64) {
+    sx::begin(vec![], DrawMode::NonDegenerate, seed);
+    let mut rng = SeedRng::new(seed);
+    let kp = KeyPair::<N>::new(&mut rng);
+    let at = atoms::atoms_of(&kp);
+    let ys: Vec<(String, Scalar)> = at.iter().filter(|a| a.path.starts_with("pk.y2s.") || a.path == "pk.x2").map(|a| (a.path.clone(), Scalar::from_term(a.term()))).collect();
+    independent_generators(&format!("C08 KeyPair<{}>::new", N), "C08 key-elements-not-independent", &eng::axioms(), &ys);
+    eng::path_done();
+}
+
 fn honest<const N: usize>(seed: u64) {
     let name = format!("C08 honest request N={}: blind_sign(..).unblind(bf).verify(pk, m)", N);
     let _ = forced_result(&name, "C08 honest-request-not-signed-correctly", DrawMode::NonDegenerate, seed, "verify", 8, true, || {
